@@ -25,6 +25,7 @@ func (c *Broadcast) HoldLock(cb func(broadcast func(), getWaitCh func() <-chan s
 	c.mtx.Lock()
 	defer verifhook.Point("hold-exit", c)
 	defer c.mtx.Unlock()
+	verifhook.Point("hold-locked", c)
 	cb(c.broadcastLocked, c.getWaitChLocked)
 }
 
@@ -37,6 +38,7 @@ func (c *Broadcast) TryHoldLock(cb func(broadcast func(), getWaitCh func() <-cha
 	}
 	defer verifhook.Point("hold-exit", c)
 	defer c.mtx.Unlock()
+	verifhook.Point("hold-locked", c)
 	cb(c.broadcastLocked, c.getWaitChLocked)
 	return true
 }
@@ -52,6 +54,7 @@ func (c *Broadcast) HoldLockMaybeAsync(cb func(broadcast func(), getWaitCh func(
 		// use defer to catch panic cases
 		defer verifhook.Point("hold-exit", c)
 		defer c.mtx.Unlock()
+		verifhook.Point("hold-locked", c)
 		cb(c.broadcastLocked, c.getWaitChLocked)
 	}
 
